@@ -78,6 +78,26 @@ FdrOK(x, r) ==
        \E i \in lo..hi : r[k] * i = FdrUnit * n * x[k]
   /\ \A k, j \in Idx(x) : (k < j /\ x[k] = x[j] /\ x[k] > 0) => r[k] # r[j]
 
+\* Unweighted moments on data offset by a large power of two (E3).  The driver adds c = 2^e
+\* (e in 20..40, or c = 0) to every element before the call.  With n a power of two the documented
+\* two-pass definition is exact in floating point on such data (the mean c + Sum(x)/n is representable,
+\* the deviations are the small dyadics x_i - Sum(x)/n, their products and sums are exact), so the
+\* library must return the exact value - which, the moments being shift invariant, is the value on
+\* the de-offset integers x, y computed here.  CovB4096 is n^3-scaled covariance brought to scale 2^12.
+CovB4096(x, y) == LET n == Len(x) IN
+                  (4096 \div (n * n * n)) * Sum([i \in Idx(x) |-> (n * x[i] - Sum(x)) * (n * y[i] - Sum(y))])
+\* value at scale 2^12 of the (un)biased covariance when it is on that scale, else -1 ("not decided");
+\* unbiased = biased * n / (n - 1)
+CovKnown(x, y, unbiased) ==
+  LET n == Len(x)  b == CovB4096(x, y) IN
+  IF ~unbiased THEN <<TRUE, b>>
+  ELSE IF (b * n) % (n - 1) = 0 THEN <<TRUE, (b * n) \div (n - 1)>> ELSE <<FALSE, 0>>
+\* integer square root of 0 <= m < 2^30
+ISqrt(m) == LET R[j \in 0..15] == IF j = 0 THEN 0
+                                  ELSE LET p == R[j-1]  c == p + 2^(15 - j) IN IF c * c <= m THEN c ELSE p
+            IN R[15]
+ExactN == {1, 2, 4, 8, 16}
+
 \* Weighted moments on the dyadic-exact cases (E3).  The weights are a[i] / W with
 \* integers a[i] >= 0 and W = Sum(a) a power of two (passed raw with normalizeWeights, or
 \* already divided by W); every intermediate of the documented formulas
@@ -238,6 +258,22 @@ Value(t, op, x, y, z, k, o, c, r, X, Y, Z) ==
               /\ r = (4096 \div (n * n * n)) *
                      Sum([i \in Idx(x) |-> (n * x[i] - Sum(x)) * (n * w[i] - Sum(w))])
     [] op = "Fdr"     -> o = "ok" /\ FdrOK(x, r)
+    \* moments of offset data (k ends with the exponent e of the offset 2^e, 0 = no offset); flags are 0/1
+    [] op = "MeanX"   -> o = "ok" /\ r[2] = 0 /\ (n \in PowersOfTwo => r[1] * n = 64 * Sum(x))
+    [] op = "CenterX" -> /\ o = "ok" /\ Len(r) = n
+                         /\ n \in PowersOfTwo => \A i \in Idx(x) : r[i] * n = 64 * (n * x[i] - Sum(x))
+    [] op = "CovX"    -> IF Len(x) # Len(y) THEN Raises(o, c, DIM)                    \* k = <<unbiased, e>>, r = <<value 2^12, NaN>>
+                         ELSE /\ o = "ok" /\ r[2] = 0
+                              /\ n \in ExactN => LET v == CovKnown(x, y, k[1] = 1) IN v[1] => r[1] = v[2]
+    [] op = "VarX"    -> /\ o = "ok" /\ r[2] = 0 /\ r[3] = 0                          \* r = <<value, NaN, negative>>
+                         /\ n \in ExactN => LET v == CovKnown(x, x, k[1] = 1) IN v[1] => r[1] = v[2]
+    [] op = "SdX"     -> /\ o = "ok" /\ r[2] = 0                                      \* r = <<value 2^6, NaN>>
+                         /\ n \in ExactN => LET v == CovKnown(x, x, k[1] = 1) IN
+                                            (v[1] /\ ISqrt(v[2]) * ISqrt(v[2]) = v[2]) => r[1] = ISqrt(v[2])
+    \* r = <<NaN, |cor| <= 1 + 64 eps>>: defined and in range whenever neither sample is constant
+    [] op = "CorX"    -> IF Len(x) # Len(y) THEN Raises(o, c, DIM)
+                         ELSE /\ o = "ok"
+                              /\ (Cardinality(SetOf(x)) >= 2 /\ Cardinality(SetOf(y)) >= 2) => (r[1] = 0 /\ r[2] = 1)
     \* weighted mean / covariance / variance, every (unbiased, normalizeWeights) combination; k = <<unbiased, normalize, pre>>
     \* (MeanW: <<normalize, pre>>), pre = 1: the weights were divided by their sum before the call.  r = <<value at scale
     \* 2^12 (MeanW: 2^4), is NaN, is negative, var bit-equal to cov(x,x,w) with the same flags, sd is NaN>> as 0/1 flags.
